@@ -442,6 +442,15 @@ class SymStr:
                 if all(x[0] == "lit" or x[2] in ("int",) for x in p0):
                     return [(OK, mk([("lit", x[1].lower()) if x[0] == "lit" else x for x in p0]), st)]
                 return [(OK, mk(p0), st)]   # atoms: assumed already canonical case
+            if c in ("core::str::<impl str>::len", "alloc::string::String::len"):
+                if is_concrete(p0):
+                    return [(OK, hirai.mkint(len(concrete(p0).encode("utf-8"))), st)]
+                return [(OK, unk("strlen"), st)]
+            if c == "alloc::str::<impl str>::repeat":
+                cnt = I.deref_val(st, args[1])
+                if is_concrete(p0) and cnt[0] == "int" and isinstance(cnt[1], int):
+                    return [(OK, lit(concrete(p0) * cnt[1]), st)]
+                return [(OK, unk("repeat"), st)]
             if c == "core::str::<impl str>::chars":
                 if is_concrete(p0):
                     return [(OK, ("abs", "siter", tuple(("char", ch) for ch in concrete(p0)), 0), st)]
